@@ -10,34 +10,40 @@
 (* mode mc: every script up to MaxSteps.  mode sim: TLC -simulate.                    *)
 (* The script is printed from the dedicated single-successor step Fin.               *)
 EXTENDS Conn, Json
-VARIABLES hist, fin
-gvars == <<vars, hist, fin>>
+CONSTANT MaxNoise    \* bound on steps that address a stream that is not live (they all end the same way)
+VARIABLES hist, fin, noise
+gvars == <<vars, hist, fin, noise>>
 
-Exp == [wuC |-> wuC, consC |-> consC, outC |-> outC, limC |-> outC + Max(0, cgC),
+SafeAdd(a, b) == IF b > MAX31 - a THEN MAX31 ELSE a + b     \* TLC integers are 32 bit
+Exp == [wuC |-> wuC, consC |-> consC, outC |-> outC, limC |-> SafeAdd(outC, Max(0, cgC)),
         goaway |-> goaway, dead |-> dead, started |-> started,
         rsts |-> {[id |-> r[1], code |-> r[2]] : r \in rsts},
         s |-> {[id |-> i, st |-> st[i], h |-> h[i], wu |-> wuS[i], cons |-> cons[i], acc |-> acc[i],
-                out |-> out[i], lim |-> out[i] + Max(0, cgS[i]), rep |-> replied[i],
+                out |-> out[i], lim |-> SafeAdd(out[i], Max(0, cgS[i])), rep |-> replied[i],
                 fin |-> (i \in fins), quiet |-> (i \in quiet), buf |-> buf[i]] : i \in IDS}]
 
-Rec(a, id, x, f, allowed) ==
+Noisy(a, id) == \/ a \in {"ping", "goaway", "headers"}
+                \/ a \in {"data", "wu", "rst"} /\ id # 0 /\ ~Live(id)
+Rec(a, id, x, f, allowed, why) ==
   /\ ~fin /\ fin' = FALSE
-  /\ hist' = Append(hist, [a |-> a, id |-> id, x |-> x, f |-> f, allowed |-> allowed, m |-> react', exp |-> Exp'])
+  /\ noise' = IF Noisy(a, id) THEN noise + 1 ELSE noise
+  /\ noise' <= MaxNoise
+  /\ hist' = Append(hist, [a |-> a, id |-> id, x |-> x, f |-> f, allowed |-> allowed, why |-> why, m |-> react', exp |-> Exp'])
 
-GInit == Init /\ hist = <<>> /\ fin = FALSE
+GInit == Init /\ hist = <<>> /\ fin = FALSE /\ noise = 0
 
 GNext ==
-  \/ \E id \in IDS, f \in BOOLEAN : Syn(id, f) /\ Rec("syn", id, 0, f, AllowedSyn(id))
-  \/ \E id \in IDS, len \in DSIZES, f \in BOOLEAN : Data(id, len, f) /\ Rec("data", id, len, f, AllowedData(id, len))
-  \/ \E id \in IDS \cup {0}, d \in WUDS : Wu(id, d) /\ Rec("wu", id, d, FALSE, AllowedWu(id, d))
-  \/ \E id \in IDS : RstC(id) /\ Rec("rst", id, 0, FALSE, AllowedRst(id))
-  \/ \E v \in IWS : Settings(v) /\ Rec("settings", 0, v, FALSE, AllowedSettings(v))
-  \/ \E k \in {"ping", "goaway", "headers"} : Other(k) /\ Rec(k, 1, 0, FALSE, {"acc"})
-  \/ \E id \in IDS, k \in DSIZES : HRead(id, k) /\ Rec("hread", id, k, FALSE, {"acc"})
-  \/ \E id \in IDS : HReply(id) /\ Rec("hreply", id, 0, FALSE, {"acc"})
-  \/ \E id \in IDS, k \in HWRITES : HWrite(id, k) /\ Rec("hwrite", id, k, FALSE, {"acc"})
-  \/ \E id \in IDS : HFinish(id) /\ Rec("hfinish", id, 0, FALSE, {"acc", Tok(RstCancel)})
-  \/ /\ ~Alive /\ ~fin /\ fin' = TRUE /\ UNCHANGED <<vars, hist>>
+  \/ \E id \in IDS, f \in BOOLEAN : Syn(id, f) /\ Rec("syn", id, 0, f, AllowedSyn(id), WhySyn(id))
+  \/ \E id \in IDS, len \in DSIZES, f \in BOOLEAN : Data(id, len, f) /\ Rec("data", id, len, f, AllowedData(id, len), WhyData(id, len))
+  \/ \E id \in IDS \cup {0}, d \in WUDS : Wu(id, d) /\ Rec("wu", id, d, FALSE, AllowedWu(id, d), WhyWu(id, d))
+  \/ \E id \in IDS : RstC(id) /\ Rec("rst", id, 0, FALSE, AllowedRst(id), WhyRst(id))
+  \/ \E v \in IWS : Settings(v) /\ Rec("settings", 0, v, FALSE, AllowedSettings(v), WhySettings(v))
+  \/ \E k \in {"ping", "goaway", "headers"} : Other(k) /\ Rec(k, 1, 0, FALSE, {"acc"}, k)
+  \/ \E id \in IDS, k \in DSIZES : HRead(id, k) /\ Rec("hread", id, k, FALSE, {"acc"}, "hread")
+  \/ \E id \in IDS : HReply(id) /\ Rec("hreply", id, 0, FALSE, {"acc"}, "hreply")
+  \/ \E id \in IDS, k \in HWRITES : HWrite(id, k) /\ Rec("hwrite", id, k, FALSE, {"acc"}, "hwrite")
+  \/ \E id \in IDS : HFinish(id) /\ Rec("hfinish", id, 0, FALSE, {"acc", Tok(RstCancel)}, "hfinish:" \o State(id))
+  \/ /\ ~Alive /\ ~fin /\ fin' = TRUE /\ UNCHANGED <<vars, hist, noise>>
 
 Emit == fin => PrintT(ToJson([steps |-> hist]))
 ==========================================================================
